@@ -87,7 +87,7 @@ func (w *orderWalk) detached() *orderWalk {
 }
 
 func (w *orderWalk) edge(a, b string) {
-	if !w.record || a == b || a == "" || b == "" || strings.HasSuffix(a, ":") || strings.HasSuffix(b, ":") {
+	if !w.record || a == "" || b == "" || strings.HasSuffix(a, ":") || strings.HasSuffix(b, ":") {
 		return
 	}
 	k := [2]string{a, b}
